@@ -783,17 +783,25 @@ func (tyOf[T]) workflow(out kind, opts ...compose.NewGraphOption) (workflowAPI, 
 // pre: state pre-handler on values of type T. Counts, and for rerun nodes of style "pre" keeps the input in the
 // state on the first attempt and rebuilds it from there on the re-run (which is not counted a second time).
 func (tyOf[T]) pre(n *tNode) compose.GraphAddNodeOpt {
-	key, rerun := n.Key, n.Rerun == "pre"
+	key, style := n.Key, n.Rerun
 	return compose.WithStatePreHandler(func(ctx context.Context, in T, st *tState) (T, error) {
-		if rerun {
+		if style != "" {
+			// the pre-handler of a node that asked to be re-run runs again on the re-run: it is counted once
 			if v, ok := st.Saved["pre:"+key]; ok {
-				r, _ := v.(T)
-				return r, nil
+				if style == "pre" {
+					r, _ := v.(T)
+					return r, nil
+				}
+				return in, nil
 			}
 			if st.Saved == nil {
 				st.Saved = map[string]any{}
 			}
-			st.Saved["pre:"+key] = in
+			if style == "pre" {
+				st.Saved["pre:"+key] = in
+			} else {
+				st.Saved["pre:"+key] = true
+			}
 		}
 		st.Counter++
 		st.Log = append(st.Log, "pre:"+key)
@@ -1438,9 +1446,10 @@ func paramsFor(r *mon.Rand, focus string, thorough bool) genP {
 		p.pRerun = 0
 		p.lanesMax = 2
 		p.kinds = []kind{kStr, kRec}
+		p.pIfaceOut, p.pUpcast, p.pRtCheck = 0, 0, 0 // the forced nested graphs take concrete types
 	case "mixed":
 		p.kinds = []kind{kStr, kRec, kPRec, kMsg, kMsgs}
-		p.pIfaceOut, p.pNilOut, p.pUpcast, p.pRtCheck = 0.3, 0.3, 0.2, 0.4
+		p.pIfaceOut, p.pNilOut, p.pUpcast, p.pRtCheck = 0.3, 0, 0.2, 0.4
 		p.pFieldMap, p.pInputKey, p.pMapOut, p.pOutputKey = 0.5, 0.5, 0.25, 0.2
 		p.pSub, p.pRerun, p.pState = 0.2, 0.2, 0.5
 	}
@@ -1618,7 +1627,11 @@ func genNode(r *mon.Rand, p *genP, g *tGraph, depth int, from string, src vd, re
 	if g.State {
 		n.Pre, n.Post = r.Prob(0.35), r.Prob(0.3)
 	}
-	if !req.noSub && depth < p.maxDepth && r.Prob(p.pSub) {
+	// the placeholder input of a node that is resumed (an interrupted nested graph, a node that asked to be
+	// re-run) is the zero value of its input type: nil for an interface type. Nil interface values in a
+	// checkpoint are the business of the nil-interface focus only (see HUNT_FINDINGS.json).
+	nilPlaceholder := c.In.iface() && c.InputKey == "" && p.focus != "nil-interface"
+	if !req.noSub && !nilPlaceholder && depth < p.maxDepth && r.Prob(p.pSub) {
 		n.Form = "g"
 		n.Sub = genGraph(r, p, n.Key, joinPath(g.Path, n.Key), c.Seen, depth+1)
 		n.Out = n.Sub.Out
@@ -1628,7 +1641,7 @@ func genNode(r *mon.Rand, p *genP, g *tGraph, depth int, from string, src vd, re
 			n.Chunks = 1
 		}
 		n.Out.Multi = n.Chunks > 1 && (n.Form == "s" || n.Form == "t")
-		if r.Prob(p.pRerun) {
+		if r.Prob(p.pRerun) && !nilPlaceholder {
 			switch {
 			case g.State && r.Prob(0.6):
 				n.Rerun = "pre"
